@@ -67,6 +67,8 @@ pub struct Item {
     pub last_mut: Kind,
     /// any outcome is accepted for this key until the next unconditional store
     pub unknown: bool,
+    /// set when `hi` is the deadline of a delayed flush rather than the item's own expiry
+    pub hi_from_flush: bool,
 }
 
 /// Candidate TTLs an item may carry: the largest finite one and whether
@@ -309,6 +311,14 @@ impl Model {
     /// A command observed the key as present although the model says it must not be.
     fn observed_phantom(&mut self, key: &[u8], p: Presence, what: &str) {
         match p {
+            Presence::Expired if self.items[key].hi_from_flush => {
+                let hi = self.items[key].hi;
+                self.v(
+                    "C08",
+                    "visible-after-flush-deadline",
+                    format!("{}: key {} treated as present at t={} although a delayed flush made everything stored before it unretrievable from t={}", what, wire::hex_short(key, 16), self.now, hi),
+                );
+            }
             Presence::Expired => {
                 let hi = self.items[key].hi;
                 self.v(
@@ -395,6 +405,7 @@ impl Model {
                 ttl: ttl.into(),
                 last_mut: kind,
                 unknown: false,
+                hi_from_flush: false,
             },
         );
     }
@@ -1190,6 +1201,9 @@ impl Model {
             let deadline = self.now + delay as u64;
             let now = self.now;
             for it in self.items.values_mut() {
+                if deadline < it.hi {
+                    it.hi_from_flush = true;
+                }
                 it.hi = it.hi.min(deadline);
                 it.lo = it.lo.min(now);
                 it.ttl = TtlSet { fin: it.ttl.fin.max(delay), inf: false };
